@@ -57,6 +57,7 @@ class LoopSpec:
                 st.ghost[name] = {'int': lambda: SymI(st.fresh_int(name[6:])), 'bool': lambda: SymB(st.fresh_bool(name[6:])),
                                   'val': lambda: SymV(st.fresh_val(name[6:]))}[kind]()
                 continue
+            name = it.local_name(env, name)
             found, cur = env.lookup(name)
             if kind == 'int':
                 env.vars[name] = SymI(st.fresh_int(name))
@@ -116,7 +117,7 @@ class LoopSpec:
             ctx = LoopCtx(it, env, i, length, base, self)
             self._assume(it, ctx)
             if live is not None:
-                found, lst = env.lookup(live)
+                found, lst = it.lookup_local(env, live)
                 cur_items = st.getf(lst, 'items')
                 x = lower(cur_items.at(i), st)
             else:
@@ -206,7 +207,7 @@ class LoopCtx:
     def var(self, name):
         if name.startswith('ghost:'):
             return self.st.ghost[name]
-        found, v = self.env.lookup(name)
+        found, v = self.it.lookup_local(self.env, name)
         if not found:
             raise Unsupported(f'loop invariant refers to unbound local {name}')
         return v
@@ -369,6 +370,9 @@ class Contract:
         if fi.is_static:
             self_val = None
         locals_ = it.bind_params(fi.node.args, self_val, ca, env, fi.qualname)
+        for ref_name, cur_name in it.renaming_for(fi).items():      # renamed parameters keep their reference names too
+            if cur_name in locals_ and ref_name not in locals_:
+                locals_[ref_name] = locals_[cur_name]
         return A(**locals_)
 
     def make_result(self, it, pre, a):
